@@ -691,6 +691,9 @@ class Screen(BaseScreen, RealTerminal):
                     raise ValueError(insertcs)
 
                 if isinstance(inserttext, bytes):
+                    if insertcs != "U":
+                        # same treatment as the runs drawn above: control characters are shown as "?"
+                        inserttext = inserttext.translate(UNPRINTABLE_TRANS_TABLE)
                     inserttext = inserttext.decode(encoding)
 
                 output.extend(("\x08" * back, ias))  # pylint: disable=used-before-assignment  # defined in `if row`
